@@ -261,6 +261,9 @@ type c05Eng struct {
 	ctx      map[*FuncInfo]bool
 	ctxHooks []c05Hook
 	emitting bool
+	// callVal: value of a call expression on the current path, set while the statement containing it is
+	// transferred after the callee's body was executed path-sensitively (c06X.execViaCall)
+	callVal map[*ast.CallExpr]c05Lin
 }
 
 func newC05Eng(c *Ctx) *c05Eng {
@@ -334,8 +337,18 @@ func (e *c05Eng) showVal(v *c05Val) string {
 
 // ---------------------------------------------------------------- keys
 
-// pathKey canonicalises a variable or field path; "" if e is not a path.
+// pathKey canonicalises a variable or field path; "" if e is not a path. A path through a local pointer
+// or an accessor call that has exactly one possible target is that target (c05ptr.go).
 func (e *c05Eng) pathKey(fr *c05Frame, x ast.Expr) string {
+	if x != nil && e.c != nil && e.ptrRooted(fr, x) {
+		if ks := e.aliasKeys(fr, x); len(ks) == 1 {
+			return ks[0]
+		}
+	}
+	return e.pathKeyRaw(fr, x)
+}
+
+func (e *c05Eng) pathKeyRaw(fr *c05Frame, x ast.Expr) string {
 	x = unparen(x)
 	switch t := x.(type) {
 	case *ast.Ident:
@@ -353,7 +366,7 @@ func (e *c05Eng) pathKey(fr *c05Frame, x ast.Expr) string {
 		return k
 	case *ast.SelectorExpr:
 		if s, ok := fr.info.Selections[t]; ok && s.Kind() == types.FieldVal {
-			b := e.pathKey(fr, t.X)
+			b := e.pathKeyRaw(fr, t.X)
 			if b == "" {
 				return ""
 			}
@@ -365,7 +378,7 @@ func (e *c05Eng) pathKey(fr *c05Frame, x ast.Expr) string {
 			return k
 		}
 	case *ast.StarExpr:
-		return e.pathKey(fr, t.X)
+		return e.pathKeyRaw(fr, t.X)
 	}
 	return ""
 }
@@ -655,6 +668,10 @@ func (e *c05Eng) linOf(fr *c05Frame, st *c05State, x ast.Expr) c05Lin {
 			return e.linOf(fr, st, t.X)
 		}
 	case *ast.CallExpr:
+		// a call whose callee was executed path by path by the caller (C06 executor): its value on this path
+		if l, ok := e.callVal[t]; ok {
+			return l.clone()
+		}
 		// conversion between integer types: transparent
 		if tv, ok := fr.info.Types[t.Fun]; ok && tv.IsType() && len(t.Args) == 1 {
 			if isIntType(tv.Type) && isIntType(fr.info.TypeOf(t.Args[0])) {
@@ -1523,6 +1540,39 @@ func (e *c05Eng) assignExpr(fr *c05Frame, st *c05State, lhs ast.Expr, rhs ast.Ex
 	if lt == nil {
 		return
 	}
+	// a store through a pointer that may point to several fields: weak update of each
+	if ak := e.aliasKeys(fr, lhs); len(ak) >= 2 {
+		switch {
+		case isIntType(lt):
+			nv := c05Exact("", 0)
+			if rhs != nil {
+				nv = e.evalLin(st, e.linOf(fr, st, rhs))
+			}
+			for _, t := range ak {
+				e.weakStore(st, t, nv)
+			}
+		case isStructType(lt):
+			vals := e.structVals(fr, st, rhs, lt)
+			for _, t := range ak {
+				for _, s := range c05IntLeaves(lt, 0) {
+					k := t + s
+					if _, ok := e.disp[k]; !ok {
+						e.disp[k] = strings.TrimPrefix(e.show(t)+s, "vt.")
+					}
+					nv, ok := vals[s]
+					if !ok {
+						nv = c05Top()
+					}
+					e.weakStore(st, k, nv)
+				}
+			}
+		default:
+			for _, t := range ak {
+				e.kill(st, t)
+				e.killDependents(st, t)
+			}
+		}
+	}
 	switch {
 	case isIntType(lt):
 		if lk == "" {
@@ -1544,31 +1594,7 @@ func (e *c05Eng) assignExpr(fr *c05Frame, st *c05State, lhs ast.Expr, rhs ast.Ex
 			return
 		}
 		leaves := c05IntLeaves(lt, 0)
-		vals := map[string]*c05Val{}
-		switch r := unparenOrNil(rhs).(type) {
-		case nil:
-			for _, s := range leaves {
-				vals[s] = c05Exact("", 0)
-			}
-		case *ast.CompositeLit:
-			e.compositeLeaves(fr, st, r, lt, "", vals)
-			for _, s := range leaves {
-				if _, ok := vals[s]; !ok {
-					vals[s] = c05Exact("", 0)
-				}
-			}
-		default:
-			if rk := e.pathKey(fr, r); rk != "" {
-				for _, s := range leaves {
-					k := rk + s
-					e.disp[k] = strings.TrimPrefix(e.show(rk)+s, "vt.")
-					v := e.valOf(st, k)
-					v.addLo(k, 0)
-					v.addHi(k, 0)
-					vals[s] = v
-				}
-			}
-		}
+		vals := e.structVals(fr, st, rhs, lt)
 		e.kill(st, lk)
 		for _, s := range leaves {
 			k := lk + s
@@ -1651,8 +1677,40 @@ func (e *c05Eng) assignExpr(fr *c05Frame, st *c05State, lhs ast.Expr, rhs ast.Ex
 	default:
 		if lk != "" {
 			e.kill(st, lk)
+			e.bindPtr(fr, st, lk, lhs, rhs)
 		}
 	}
+}
+
+// structVals: the bounds of the integer leaves of a struct-valued right-hand side (nil = zero value).
+func (e *c05Eng) structVals(fr *c05Frame, st *c05State, rhs ast.Expr, lt types.Type) map[string]*c05Val {
+	leaves := c05IntLeaves(lt, 0)
+	vals := map[string]*c05Val{}
+	switch r := unparenOrNil(rhs).(type) {
+	case nil:
+		for _, s := range leaves {
+			vals[s] = c05Exact("", 0)
+		}
+	case *ast.CompositeLit:
+		e.compositeLeaves(fr, st, r, lt, "", vals)
+		for _, s := range leaves {
+			if _, ok := vals[s]; !ok {
+				vals[s] = c05Exact("", 0)
+			}
+		}
+	default:
+		if rk := e.pathKey(fr, r); rk != "" {
+			for _, s := range leaves {
+				k := rk + s
+				e.disp[k] = strings.TrimPrefix(e.show(rk)+s, "vt.")
+				v := e.valOf(st, k)
+				v.addLo(k, 0)
+				v.addHi(k, 0)
+				vals[s] = v
+			}
+		}
+	}
+	return vals
 }
 
 func unparenOrNil(x ast.Expr) ast.Expr {
@@ -1995,6 +2053,11 @@ func (e *c05Eng) storesOf(fi *FuncInfo) map[string]bool {
 	fr.recv = e.recvOf(fi)
 	fr.recvAt = fr.recv != nil
 	rec := func(lhs ast.Expr) {
+		for _, k := range e.aliasKeys(fr, lhs) {
+			if strings.HasPrefix(k, "@.") {
+				out[k] = true
+			}
+		}
 		if k := e.pathKey(fr, lhs); strings.HasPrefix(k, "@.") {
 			out[k] = true
 			return
@@ -2038,6 +2101,11 @@ func (e *c05Eng) directStores(fi *FuncInfo) map[string]bool {
 	fr.recv = e.recvOf(fi)
 	fr.recvAt = fr.recv != nil
 	rec := func(lhs ast.Expr) {
+		for _, k := range e.aliasKeys(fr, lhs) {
+			if strings.HasPrefix(k, "@.") {
+				out[k] = true
+			}
+		}
 		if k := e.pathKey(fr, lhs); strings.HasPrefix(k, "@.") {
 			out[k] = true
 		} else if ix, ok := unparen(lhs).(*ast.IndexExpr); ok {
@@ -2328,6 +2396,20 @@ func (e *c05Eng) bindRange(fr *c05Frame, st *c05State, rs *ast.RangeStmt) {
 						for s, kk := range lv.hi {
 							v.addHi(s, kk-1)
 						}
+						// key <= len(X)-1 relative to the length itself (as the condition of the equivalent
+						// `for i := 0; i < len(X); i++` would record): inside the body len(X) >= 1
+						if len(ll.t) == 1 {
+							for a, cf := range ll.t {
+								if cf == 1 && a != k && !c05IsTmp(a) {
+									v.addHi(a, ll.k-1)
+									defer func() {
+										f := c05Atom(k).addScaled(ll, -1)
+										f.k += 1
+										st.facts = c05AddFact(st.facts, f)
+									}()
+								}
+							}
+						}
 					} else if isIntType(xt) { // range over int
 						lv := e.evalLin(st, e.linOf(fr, st, rs.X))
 						for s, kk := range lv.hi {
@@ -2439,6 +2521,7 @@ func (e *c05Eng) transfer(fr *c05Frame, st *c05State, n ast.Node) bool {
 				}
 			}
 		case s.Tok == token.ADD_ASSIGN || s.Tok == token.SUB_ASSIGN:
+			e.killAliases(fr, st, s.Lhs[0])
 			if k := e.pathKey(fr, s.Lhs[0]); k != "" && isIntegerExpr(fr.info, s.Lhs[0]) {
 				sign := int64(1)
 				if s.Tok == token.SUB_ASSIGN {
@@ -2448,6 +2531,7 @@ func (e *c05Eng) transfer(fr *c05Frame, st *c05State, n ast.Node) bool {
 				e.assignLin(st, k, l)
 			}
 		case s.Tok == token.MUL_ASSIGN:
+			e.killAliases(fr, st, s.Lhs[0])
 			if k := e.pathKey(fr, s.Lhs[0]); k != "" && isIntegerExpr(fr.info, s.Lhs[0]) {
 				if c, ok := constInt(fr.info, s.Rhs[0]); ok {
 					e.assignLin(st, k, c05Const(0).addScaled(e.linOf(fr, st, s.Lhs[0]), c))
@@ -2456,11 +2540,13 @@ func (e *c05Eng) transfer(fr *c05Frame, st *c05State, n ast.Node) bool {
 				}
 			}
 		default:
+			e.killAliases(fr, st, s.Lhs[0])
 			if k := e.pathKey(fr, s.Lhs[0]); k != "" {
 				e.kill(st, k)
 			}
 		}
 	case *ast.IncDecStmt:
+		e.killAliases(fr, st, s.X)
 		if k := e.pathKey(fr, s.X); k != "" && isIntegerExpr(fr.info, s.X) {
 			d := int64(1)
 			if s.Tok == token.DEC {
@@ -2795,7 +2881,7 @@ func c05Debug(c *Ctx) {
 // c05Funcs: the functions worth analysing (they store INV fields, index a grid, or call such functions).
 func c05Funcs(c *Ctx, e *c05Eng) []*FuncInfo {
 	goals := e.goals()
-	all := c.P.FuncsIn("widgets/term")
+	all := c05LiveFuncs(c, e, c.P.FuncsIn("widgets/term"))
 	want := map[*FuncInfo]bool{}
 	// functions whose own code matters: they store INV fields, index a screen, or append tab stops
 	for _, fi := range all {
@@ -4006,10 +4092,50 @@ func c05CountLoop(e *c05Eng, fr *c05Frame, fi *FuncInfo, fs *ast.ForStmt) (strin
 			}
 		}
 	}
-	tainted := containsNode(b, func(m ast.Node) bool {
-		i2, ok := m.(*ast.Ident)
-		return ok && params[fr.info.ObjectOf(i2)]
-	})
+	// locals computed from a count parameter (n := row(ps); n := vt.helper(ps)) carry the parameter's range
+	mentions := func(x ast.Node) bool {
+		return x != nil && containsNode(x, func(m ast.Node) bool {
+			i2, ok := m.(*ast.Ident)
+			return ok && params[fr.info.ObjectOf(i2)]
+		})
+	}
+	if fi.Decl.Body != nil && len(params) > 0 {
+		for changed, round := true, 0; changed && round < 8; round++ {
+			changed = false
+			inspectNoLit(fi.Decl.Body, func(n ast.Node) bool {
+				mark := func(lhs ast.Expr, rhs ast.Expr) {
+					li, ok := unparen(lhs).(*ast.Ident)
+					if !ok || rhs == nil {
+						return
+					}
+					o := fr.info.ObjectOf(li)
+					if o == nil || params[o] || !isIntType(o.Type()) {
+						return
+					}
+					if _, isVar := o.(*types.Var); isVar && mentions(rhs) {
+						params[o] = true
+						changed = true
+					}
+				}
+				switch t := n.(type) {
+				case *ast.AssignStmt:
+					if len(t.Lhs) == len(t.Rhs) {
+						for i := range t.Lhs {
+							mark(t.Lhs[i], t.Rhs[i])
+						}
+					}
+				case *ast.ValueSpec:
+					if len(t.Names) == len(t.Values) {
+						for i := range t.Names {
+							mark(t.Names[i], t.Values[i])
+						}
+					}
+				}
+				return true
+			})
+		}
+	}
+	tainted := mentions(b)
 	if !tainted {
 		return "", nil
 	}
